@@ -95,6 +95,13 @@ func c10Pipeline(c *core.C, x []byte, signer ed25519.PublicKey, desc func() any)
 		stage("Query", func() {
 			_, _ = az.Query(ast.Rule{Head: ast.P("out", ast.Var("x")), Body: []ast.Pred{ast.P("p", ast.Var("x"))}}.Lib())
 			_, _ = az.Query(ast.Rule{Head: ast.P("out", ast.Var("x"), ast.Var("y")), Body: []ast.Pred{ast.P("p2", ast.Var("x"), ast.Var("y"))}}.Lib())
+			// plain look-ups (head = the one body atom) with constants of every kind, byte arrays
+			// and sets included, against whatever the token put under p / p2
+			for _, k := range []ast.Term{ast.Bytes([]byte{1}), ast.Bytes(nil), ast.SetOf(ast.Int(1)), ast.SetOf(ast.Bytes([]byte{1})), ast.SetOf(ast.Str("a")), ast.Int(1), ast.Str("a"), ast.Date(0), ast.Bool(true)} {
+				_, _ = az.Query(ast.Rule{Head: ast.P("p", k), Body: []ast.Pred{ast.P("p", k)}}.Lib())
+				_, _ = az.Query(ast.Rule{Head: ast.P("p2", k, ast.Var("w")), Body: []ast.Pred{ast.P("p2", k, ast.Var("w"))}}.Lib())
+				_, _ = az.Query(ast.Rule{Head: ast.P("p2", ast.Var("w"), k), Body: []ast.Pred{ast.P("p2", ast.Var("w"), k)}}.Lib())
+			}
 		})
 		stage("PrintWorld", func() { _ = az.PrintWorld() })
 		stage("Reset", func() { az.Reset() })
